@@ -14,6 +14,20 @@ def setup(E):
     c = dict(E.contracts[T + "_send_message"])
     pk = dict(params={"data": "obj:Message"}, returns="none", ghost=dict(c["ghost"]), raises=dict(c["raises"]), modifies=[])
     global TARGETS
+    # the sequence number the reply quotes is the one Packetizer.read_message stamped on the message: the number the packet
+    # was received under (the MAC's counter), not a per-key packet count (contract shared with C01 / C10)
+    from contracts import packet_frames
+    E2 = type(E)()
+    packet_frames.declare_common(E2)
+    rq = "paramiko.packet.Packetizer.read_message"
+    TARGETS = [t for t in TARGETS if not (isinstance(t, tuple) and t[1] == "stamps-seqno")]
+    for mode, bs in (("none", 8), ("classic", 16)):
+        rc = packet_frames.read_contract(mode, bs)
+        TARGETS.append((rq, "stamps-seqno-%s" % mode, dict(rc, **{
+            "+replace": True, "+contracts": {k: v for k, v in E2.contracts.items() if k != rq},
+            "+fields": {k: dict(d["fields"]) for k, d in E2.classdecl.items()},
+            "+engine": {"ghost_types": dict(E2.ghost_types), "inline_ok": set(E2.inline_ok), "auto_opaque": getattr(E2, "auto_opaque", False),
+                        "opaque_contracts": dict(E2.opaque_contracts)}})))
     TARGETS = [t for t in TARGETS if not (isinstance(t, tuple) and t[1] == "own-body")]
     TARGETS.append((T + "_send_message", "own-body", dict(
         c, ghost=None,
